@@ -208,6 +208,12 @@ def r2_state(ctx, F):
     for tgt, w in sorted(want.items()):
         got = stores.get(tgt, [])
         ok = len(got) == 1 and got[0][1][1] == w
+        if tgt == "self.mount_id_mappings" and len(got) == 1 and not ok:
+            # the same table built by a push loop: every slot of the state's table is pushed (checked by the slot transform below)
+            rvl = vf.VF(rb, inline_depth=0, opaque_loops=True)
+            t = R(rvl.call_args(got[0][0])[1], rb, rvl)
+            pushes = [c for c in live_calls(rb) if c.name == "push" and R(rvl.call_args(c)[0], rb, rvl) in t]
+            ok = t.startswith("Arc::new(loop(") and len(pushes) == 1 and not [g for g in rvl.guards(pushes[0].bb) if "Iter::next" not in R(g[0], rb, rvl) and "discr(Result::branch(" not in R(g[0], rb, rvl)]
         ctx.check(rule, "restore/" + tgt, ok, "Vfs::restore_from_bytes stores `%s` into %s; required `%s`" % (got[0][1][1][:200] if got else "nothing", tgt, w),
                   loc=got[0][0].loc() if got else rb.loc())
     extra = sorted(set(stores) - set(want))
@@ -221,25 +227,33 @@ def r2_state(ctx, F):
         ctx.check(rule, "restore/propagates/" + what.rstrip("("), ("residual(Result::map_err(%s" % what in rt) or ("residual(%s" % what in rt),
                   "Vfs::restore_from_bytes ignores a failure of %s)" % what, loc=rb.loc())
 
-    # per-mount mappings: closure composition must be the identity on Option<(u32,u32,u32)>
-    def outer_inner(b, idx):
-        cl = [c for c in F.closures_of(b.key) if c.key == b.key + "::{closure#%d}" % idx]
-        if len(cl) != 1:
-            return (None, None), None
-        o = cl[0]
-        ov = vf.VF(o, inline_depth=0)
-        r = ov.ret()
-        inner = closure_of(F, r)
-        return (o, r), inner
-    (so, sr), si = outer_inner(sb, 1)
-    (ro, rr_), ri = outer_inner(rb, 1)
-    ok = so is not None and ro is not None
-    if ok:
-        # outer closures are exactly Option::map(m, inner) (no filter, no and_then)
-        for (o, r, side) in ((so, sr, "save"), (ro, rr_, "restore")):
-            t = R(r, o)
-            ctx.check(rule, "mapping-closure/%s-outer" % side, t == "Option::map(m, closure({closure#0}))",
-                      "per-mount id mappings: the %s side transforms each slot with `%s`; only `m.map(..)` keeps None/Some as saved" % (side, t[:200]), loc=o.loc(), detail=t[:120])
+    # per-mount mappings: the per-slot transforms must compose to the identity on Option<(u32,u32,u32)>
+    def slot_transform(b, source_suffix):
+        """(text of the per-slot expression with the slot written `m`, inner closure body, location) for either spelling:
+        `SRC.iter().map(|m| E).collect()`  or  `for m in SRC.iter() { out.push(E) }`."""
+        bv = vf.VF(b, inline_depth=0, opaque_loops=True)
+        for c in live_calls(b):
+            if c.name == "map" and (c.fn or "").endswith("Iterator::map"):
+                a = bv.call_args(c)
+                if R(a[0], b, bv).startswith("impl [T]::iter(") and R(a[0], b, bv).endswith(source_suffix + ")"):
+                    cl = closure_of(F, a[1])
+                    if cl is not None:
+                        ov = vf.VF(cl, inline_depth=0)
+                        return R(ov.ret(), cl), closure_of(F, ov.ret()), cl
+            if c.name == "push":
+                a = bv.call_args(c)
+                t = R(a[1], b, bv)
+                its = [x for x in live_calls(b) if x.name == "iter" and R(bv.call_args(x)[0], b, bv).endswith(source_suffix)]
+                if "some(Iter::next(loop(iter)))" in t and its:
+                    return t.replace("some(Iter::next(loop(iter)))", "m"), closure_of(F, a[1]), b
+        return None, None, b
+    st_, si, sloc = slot_transform(sb, "self.mount_id_mappings)")
+    rt_, ri, rloc = slot_transform(rb, ".0.mount_id_mappings")
+    if ctx.check(rule, "mapping-closure/shape", st_ is not None and rt_ is not None,
+                 "per-mount id mappings are no longer converted slot by slot (neither `.iter().map(..).collect()` nor a push loop) on both sides", loc=sb.loc()):
+        for (t, side, loc) in ((st_, "save", sloc), (rt_, "restore", rloc)):
+            ctx.check(rule, "mapping-closure/%s-outer" % side, re.fullmatch(r"Option::map\(m, closure\(\{closure#\d+\}\)\)", t) is not None,
+                      "per-mount id mappings: the %s side transforms each slot with `%s`; only `m.map(..)` keeps None/Some as saved" % (side, t[:200]), loc=loc.loc(), detail=t[:120])
         okc = si is not None and ri is not None
         siv = vf.VF(si, inline_depth=0) if okc else None
         riv = vf.VF(ri, inline_depth=0) if okc else None
@@ -252,8 +266,6 @@ def r2_state(ctx, F):
         ctx.check(rule, "mapping-closure/identity", okc,
                   "per-mount id mappings: restore(save((i, e, r))) is not (i, e, r): save builds `%s`, restore builds `%s`" %
                   (R(siv.ret(), si)[:160] if siv else "?", R(riv.ret(), ri)[:160] if riv else "?"), loc=(ri or rb).loc())
-    else:
-        ctx.check(rule, "mapping-closure/shape", False, "per-mount id mappings are no longer converted slot by slot with m.map(..) on both sides", loc=sb.loc())
     ctx.floor(rule, 15)
 
 
@@ -351,7 +363,7 @@ def r4_pseudo(ctx, F):
             good = good and x is not None and unclone(x) == ("F", base, "name")
             ok = good
             g = [(R(y, sb, sv), l) for (y, l, u) in sv.guards(ps[0].bb)]
-            root_skip = [t for (t, l) in g if t in ("Eq(ROOT_ID, %s.ino)" % R(base, sb, sv), "Eq(%s.ino, ROOT_ID)" % R(base, sb, sv)) and l == 0] if base else []
+            root_skip = [t for (t, l) in g if t == vf.fact("Ne(ROOT_ID, %s.ino)" % R(base, sb, sv)) and l != 0] if base else []
             ctx.check(rule, "save/skips-root-only", len(root_skip) == 1 and len([t for (t, l) in g if t.startswith(("Eq(", "Ne("))]) == 1,
                       "PseudoFs::save_to_bytes must save every inode except the root (guards on the push: %s)" % [t for (t, l) in g if "Eq" in t or "Ne" in t], loc=ps[0].loc())
     ctx.check(rule, "save/inode-triple", ok, "PseudoFs::save_to_bytes does not save (ino, parent, name) of each inode", loc=sb.loc())
